@@ -20,6 +20,22 @@ class BatchTestLight(PlatformBatchLight):
     def get_max_fade_ms(self):
         return 0
 
+    # the two calls below only add logging around the real PlatformBatchLight methods
+    def set_fade(self, start_brightness, start_time, target_brightness, target_time):
+        p = self.platform
+        p.in_mark = True
+        try:
+            p.log.append(("mark", p.machine.clock.get_time(), self.index, start_brightness, start_time, target_brightness,
+                          target_time))
+            return super().set_fade(start_brightness, start_time, target_brightness, target_time)
+        finally:
+            p.in_mark = False
+
+    def get_fade_and_brightness(self, current_time):
+        res = super().get_fade_and_brightness(current_time)
+        self.platform.log.append(("compute", current_time, self.index, res[0], res[2]))
+        return res
+
     def get_board_name(self):
         return "batchtest"
 
@@ -41,10 +57,21 @@ class BatchTestPlatform(LightsPlatform):
         self.system = None
         self.lights = {}
         self.in_flight = 0
+        self.in_mark = False
+        self.log = []
 
     async def initialize(self):
         self.system = PlatformBatchLightSystem(self.machine.clock, self._send, self.machine.config["mpf"][
             "default_light_hw_update_hz"], 2)
+        platform = self
+
+        class LoggedEvent(asyncio.Event):
+            # `dirty_lights_changed.set()` outside `mark_dirty` = one iteration of the scheduler task
+            def set(self):
+                if not platform.in_mark:
+                    platform.log.append(("schedfire", platform.machine.clock.get_time()))
+                return super().set()
+        self.system.dirty_lights_changed = LoggedEvent()
 
     async def start(self):
         self.system.start()
@@ -55,11 +82,13 @@ class BatchTestPlatform(LightsPlatform):
 
     async def _send(self, seq):
         self.in_flight += 1
+        self.log.append(("flush", self.machine.clock.get_time(), [(light.index, brightness) for light, brightness, _ in seq]))
         await asyncio.sleep(SEND_LATENCY)
         self.in_flight -= 1
         for light, brightness, _fade in seq:
             light.sent = brightness
             light.sends += 1
+        self.log.append(("delivered", self.machine.clock.get_time()))
 
     def parse_light_number_to_channels(self, number, subtype):
         if subtype == "matrix":
@@ -69,6 +98,7 @@ class BatchTestPlatform(LightsPlatform):
 
     def configure_light(self, number, subtype, config, platform_settings):
         light = BatchTestLight(number, self.system, int(number))
+        light.platform = self
         self.lights[int(number)] = light
         return light
 
@@ -86,3 +116,88 @@ def config(hz, profile):
 def attach(run):
     # a fade ends, the scheduler re-dirties the light, a batch may be in flight (1.5 ticks), then poll sleep + send
     run.batch_lag = 2 * (2 + run.interval) + 4
+    run.batch_platform = run.vm.machine.hardware_platforms["batchtest"]
+
+
+UNIT = 1.0 / 16
+
+
+def _u(t):
+    x = t / UNIT
+    if abs(x - round(x)) > 1e-9:
+        raise ValueError("time off the 1/16 s grid: %r" % t)
+    return int(round(x))
+
+
+def model_check(ctx, model, run, case):
+    """Feed the platform's log (marks, scheduler iterations, computations, callback starts/ends - in the order in which
+    they really happened) to the batch model; compare every brightness, every transmitted list and the final state."""
+    p = run.batch_platform
+    if model.ask("B reset") != "ok":
+        raise ValueError("batch model reset failed")
+    now = None
+    queued = 0      # lights computed and not skipped since the last callback start
+    for ev in p.log:
+        kind, t = ev[0], _u(ev[1])
+        what = dict(case, backend="batch", at=t, event=kind)
+        if t != now:
+            ans = model.ask("B adv %d" % t)
+            if ans != "ok":
+                ctx.compare(what, "time advances", ans)
+                return
+            now = t
+        if kind == "mark":
+            _, _, l, sb, st, tb, tt = ev
+            line = "B mark %d %d %d %d %s" % (l, round(sb * 255), _u(st) if st >= 0 else 0, round(tb * 255),
+                                              _u(tt) if tt >= 0 else "-")
+            if abs(sb * 255 - round(sb * 255)) > 1e-6 or abs(tb * 255 - round(tb * 255)) > 1e-6:
+                raise ValueError("brightness not k/255")
+            if not ctx.compare(dict(what, line=line), "ok", model.ask(line)):
+                return
+        elif kind == "schedfire":
+            if not ctx.compare(what, "ok", model.ask("B schedfire")):
+                return
+        elif kind == "compute":
+            _, _, l, b, done = ev
+            ans = model.ask("B compute %d" % l)
+            ok = False
+            if ans == "skip":
+                ok = bool(done)
+            elif ans.startswith("q "):
+                queued += 1
+                frac, d = ans.split()[1:]
+                num, den = frac.split("/")
+                ok = int(den) > 0 and abs(int(num) / int(den) - b) < 1e-9 and (d == "1") == bool(done)
+            if not ctx.compare(dict(what, light=l), "computed" if ok else ["computed", b, done], "computed" if ok else ans):
+                return
+        elif kind == "flush":
+            # the light computed last may not have fitted into this list (batch size / fade tolerance)
+            keep = len(ev[2]) == queued - 1
+            ans = model.ask("B flushkeep" if keep else "B flush")
+            queued = 1 if keep else 0
+            ok = ans.startswith("f")
+            if ok:
+                items = ans.split()[1:]
+                ok = len(items) == len(ev[2])
+                for it, (l, b) in zip(items, ev[2]):
+                    ll, frac = it.split(":")
+                    num, den = frac.split("/")
+                    if int(ll) != l or int(den) <= 0 or abs(int(num) / int(den) - b) > 1e-9:
+                        ok = False
+            if not ctx.compare(what, "list" if ok else ["list", ev[2]], "list" if ok else ans):
+                return
+        elif kind == "delivered":
+            if not ctx.compare(what, "ok", model.ask("B delivered")):
+                return
+    ans = model.ask("B state 21")
+    hw = ans.split("| h")[1].split()
+    ok = True
+    for idx, light in p.lights.items():
+        m = hw[idx]
+        if light.sent is None:
+            ok = ok and m == "-"
+        else:
+            ok = ok and m != "-" and abs(int(m.split("/")[0]) / int(m.split("/")[1]) - light.sent) < 1e-9
+    rest = ans.split("| h")[0].replace("d", "").replace("s", "").replace("|", "").split()
+    impl_rest = sorted(l.index for l in p.system.dirty_lights) + sorted(x[1].index for x in p.system.dirty_schedule)
+    ctx.compare(dict(case, backend="batch", what="final platform state"), ["hw", True, impl_rest], ["hw", ok, [int(x) for x in rest]])
